@@ -140,6 +140,15 @@ inductive Spec.UmadShape (isGen : α → Prop) : List α → List α → Prop wh
       (keep = [] ∨ keep = [g]) → (add = [] ∨ ∃ x, isGen x ∧ add = [x]) →
       UmadShape isGen gs out → UmadShape isGen (g :: gs) (keep ++ add ++ out)
 
+/-- the rates are probabilities (`random_bool` accepts them) -/
+def UmadCfg.Valid (cfg : UmadCfg) : Prop :=
+  F64.validP cfg.add = true ∧ F64.validP cfg.del = true ∧ ∀ r, cfg.emptyAdd = some r → F64.validP r = true
+
+/-- Spec of UMAD with addition 1 / deletion 0: every parent gene followed by one new gene -/
+def Spec.interleave : List α → List α → List α
+  | g :: gs, x :: xs => g :: x :: Spec.interleave gs xs
+  | _, _ => []
+
 /-! ## generators -/
 
 /-- a gene of a Plushy genome, as far as the generator is concerned -/
